@@ -310,12 +310,15 @@ where
             wrapper_event_id: *wrapper_event_id,
         };
 
+        // The welcome is stored before the record that marks its wrapper as processed: if the
+        // process dies in between, the wrapper is simply processed again, whereas the opposite
+        // order left a processed record pointing at a welcome that was never stored.
         self.storage()
-            .save_processed_welcome(processed_welcome)
+            .save_welcome(welcome.clone())
             .map_err(|e| Error::Welcome(e.to_string()))?;
 
         self.storage()
-            .save_welcome(welcome.clone())
+            .save_processed_welcome(processed_welcome)
             .map_err(|e| Error::Welcome(e.to_string()))?;
 
         Ok(welcome)
